@@ -13,12 +13,12 @@ EXHAUSTIVE = {"quick": True, "thorough": True}
 MODES = {"quick": ["jit"], "thorough": ["jit", "nojit", "bounds"], "search": ["jit", "nojit"]}
 CASE_TIMEOUT = 30
 RULE = ("exhaustive: every old key column over 3 keys with 0-3 versions per key and at most n rows (quick n=3, thorough n=5) in "
-        "every physical order x every snapshot over the 3 keys (unique keys, every subset in every order) x payload variants "
+        "every physical order x every snapshot over the 3 keys (unique keys, every subset in every order) x payload variants (quick: one per pair, rotating) "
         "(one numeric and one indexed-string column; per key the snapshot row equals the latest old version / differs in the "
         "numeric column only / in the string column only; j_valid_from increasing with, reversed against, or tied across the "
         "physical order), through journal_table on HDF5 dataframes; plus the kernels called directly on every sorted pair of key "
         "columns with at most 5 (thorough 6) old rows; "
-        "plus seeded random tables (up to 40 rows, 1-4 compared columns of int8/int32/int64/float64/indexed string incl. empty "
+        "plus seeded random tables (up to 40 rows, 1-4 compared columns of int32/int64 (thorough also int8/float64)/indexed string incl. empty "
         "and multi-byte strings, int64 and fixed-string keys). Non-trivial = at least one key with >=1 old version that is also "
         "in the snapshot AND (a key only in old or only in new or a kept changed row); distinct = distinct canonical case.")
 ASSUMPTIONS = ["np.argsort(kind='stable') is a stable sort; numpy fancy indexing / Field.apply_index permute rows (C09)",
@@ -117,15 +117,17 @@ def gen_cases(tier, rng):
     news = new_key_seqs()
     variants = [(0, 0, 0), (1, 0, 2), (2, 1, 0), (0, 2, 1)]
     # journal_table on HDF5 dataframes: every physical order of the old table and of the snapshot
-    cnt = 0
+    cnt = pair = 0
+    dts = NUM_DTYPES[:2] if tier == "quick" else NUM_DTYPES      # every dtype is one more numba specialisation per worker
     for o in old_key_seqs(3 if tier == "quick" else 5):
         for nw in news:
+            pair += 1
             for vi, var in enumerate(variants):
-                if tier == "quick" and (cnt + vi) % 2 == 1:
-                    continue        # quick: two of the four payload variants per pair, rotating
+                if tier == "quick" and vi != pair % 4:
+                    continue        # quick: one of the four payload variants per pair, rotating
                 cnt += 1
                 cases.append(build_table_case(o, nw, var, cnt % 3, cnt, kdtype="S2" if cnt % 5 == 0 else "int64",
-                                              dtypes=(NUM_DTYPES[cnt % 4],)))
+                                              dtypes=(dts[cnt % len(dts)],)))
     # the kernels called directly on sorted columns (as tests/test_operations.py does)
     nk = 0
     for o in old_key_seqs(5 if tier == "quick" else 6):
@@ -143,8 +145,8 @@ def gen_cases(tier, rng):
     # seeded random: kernels incl. keys outside the precondition, then whole tables
     for t in range(600 if tier == "quick" else 6000):
         cases.append(rand_kernel_case(rng, t))
-    for t in range(250 if tier == "quick" else 5000):
-        cases.append(rand_table_case(rng, t))
+    for t in range(150 if tier == "quick" else 5000):
+        cases.append(rand_table_case(rng, t, dts))
     return cases
 
 
@@ -154,7 +156,7 @@ def rand_payload(rng, kind):
     return rng.randrange(-3, 4)
 
 
-def rand_cols(rng, old_ids, new_ids, old_order):
+def rand_cols(rng, old_ids, new_ids, old_order, dts=NUM_DTYPES):
     """random compared columns; the snapshot row of a key already in old is, with probability 1/2, a copy of the latest version"""
     ncols = rng.choice([1, 1, 2, 2, 3, 4])
     kinds = [rng.choice(["num", "str"]) for _ in range(ncols)]
@@ -166,7 +168,7 @@ def rand_cols(rng, old_ids, new_ids, old_order):
         o = [rand_payload(rng, kind) for _ in old_ids]
         cols.append({"kind": kind, "o": o, "n": [None] * len(new_ids)})
         if kind == "num":
-            cols[-1]["dtype"] = rng.choice(NUM_DTYPES)
+            cols[-1]["dtype"] = rng.choice(dts)
     for j, k in enumerate(new_ids):
         same = k in latest and rng.random() < 0.5
         diffcol = rng.randrange(ncols)
@@ -183,7 +185,7 @@ def rand_cols(rng, old_ids, new_ids, old_order):
     return cols
 
 
-def rand_table_case(rng, t):
+def rand_table_case(rng, t, dts=NUM_DTYPES):
     nkeys = rng.choice([1, 2, 3, 5, 8, 12])
     keys = rng.sample(range(0, 60), nkeys + 3)
     old_ids = []
@@ -203,7 +205,7 @@ def rand_table_case(rng, t):
     vf = [rng.randrange(1, 4) for _ in range(m)] if mode == 0 else (list(range(m)) if mode == 1 else [5] * m)
     order = sorted(range(m), key=lambda r: (old_ids[r], vf[r], r))
     return {"op": "journal_table", "old_ids": old_ids, "old_vf": vf, "new_ids": new_ids,
-            "kdtype": "S2" if rng.random() < 0.2 else "int64", "cols": rand_cols(rng, old_ids, new_ids, order),
+            "kdtype": "S2" if rng.random() < 0.2 else "int64", "cols": rand_cols(rng, old_ids, new_ids, order, dts),
             "_n": t, "_rand": True}
 
 
